@@ -61,6 +61,9 @@ func u64(s sx.Sexp) uint64 {
 }
 
 func sizeOf(lo, hi sx.Sexp) *types.IntegerType {
+	if lo.MustInt() > hi.MustInt() { // Integer[] rejects it; the driver answers bad-op for such a size too
+		panic(badOp{"min > max"})
+	}
 	return types.NewIntegerType(lo.MustInt(), hi.MustInt())
 }
 
@@ -82,7 +85,7 @@ func typeOf(e sx.Sexp) px.Type {
 	a := e.Args()
 	switch e.Tag() {
 	case "int":
-		return types.NewIntegerType(a[0].MustInt(), a[1].MustInt())
+		return sizeOf(a[0], a[1])
 	case "flt":
 		return types.NewFloatType(math.Float64frombits(u64(a[0])), math.Float64frombits(u64(a[1])))
 	case "enum":
@@ -670,6 +673,8 @@ func pairFail(out, law, detail string, ex, ey sx.Sexp, x, y px.Value) core.Resul
 		class = "raw-string-key"
 	case law == "key-differs-for-equal" && memberOrder(ex, ey):
 		class = "type-member-order"
+	case law == "key-differs-for-equal" && callablePair(ex, ey):
+		class = "callable-all-equal"
 	case law == "key-differs-for-equal" && rangeOriginal(ex, ey):
 		class = "range-original-key"
 	}
@@ -893,6 +898,8 @@ func exec1(c px.Context, op string, args []sx.Sexp) core.Result {
 				class = "raw-string-key"
 			} else if order && !found {
 				class = "type-member-order"
+			} else if !found && callablePair(args[0], args[1]) {
+				class = "callable-all-equal"
 			} else if !found && rangeOriginal(args[0], args[1]) {
 				class = "range-original-key"
 			}
@@ -965,6 +972,8 @@ func exec1(c px.Context, op string, args []sx.Sexp) core.Result {
 				class = "raw-string-key"
 			} else if memberOrder(args[0]) && strings.HasPrefix(fail, "kept apart") {
 				class = "type-member-order"
+			} else if callablePair(args[0]) && strings.HasPrefix(fail, "kept apart") {
+				class = "callable-all-equal"
 			} else if rangeOriginal(args[0]) && strings.HasPrefix(fail, "kept apart") {
 				class = "range-original-key"
 			}
@@ -1065,6 +1074,7 @@ var typeExprs = []string{
 	"Object", "Object[{name=>'A',attributes=>{a=>Integer}}]", "Object[{name=>'A',attributes=>{a=>String}}]", "Object[{name=>'B',attributes=>{a=>Integer}}]",
 	"TypeSet", "Deferred",
 	"SemVer['1.x']", "SemVer['2.x']", "SemVer['>=1.0.0 <2.0.0']", "SemVer['1.2.3']",
+	"Runtime['', 'x']", "Runtime['', 'y']", "Runtime['ruby', 'x']", "Runtime['ruby', 'y']", "Runtime['ruby', 'x', Regexp[/y/]]", "Runtime['ruby', 'x', Regexp[/z/]]", "Runtime['ruby']",
 }
 
 // ---- generators ------------------------------------------------------------------------------------------------
@@ -1592,6 +1602,10 @@ func equalType(r *rand.Rand, t sx.Sexp) sx.Sexp {
 		return sx.T("arr", equalType(r, a[0]), a[1], a[2])
 	case "opt", "typ", "notundef", "sensitive", "iterable", "iterator":
 		return sx.T(t.Tag(), equalType(r, a[0]))
+	case "hash":
+		return sx.T("hash", equalType(r, a[0]), equalType(r, a[1]), a[2], a[3])
+	case "like":
+		return sx.T("like", equalType(r, a[0]), a[1])
 	case "pat":
 		xs := append([]sx.Sexp{}, a...)
 		if r.Intn(2) == 0 {
@@ -1599,8 +1613,13 @@ func equalType(r *rand.Rand, t sx.Sexp) sx.Sexp {
 		}
 		return sx.T("pat", xs...)
 	case "strs":
-		if a[0].MustInt() <= 0 && r.Intn(2) == 0 {
-			return sx.T("strs", sx.Int(-a[0].MustInt()-1), a[1]) // a negative lower bound is 0 ... only when it was 0
+		if r.Intn(2) == 0 { // a negative lower bound is 0
+			switch lo := a[0].MustInt(); {
+			case lo == 0:
+				return sx.T("strs", sx.Int(int64(-1-r.Intn(3))), a[1])
+			case lo < 0:
+				return sx.T("strs", sx.Int(0), a[1])
+			}
 		}
 	}
 	return t
